@@ -344,7 +344,7 @@ pub fn abort_result(i: u64, case: &Value, desc: &str) -> Value {
 }
 
 pub fn hang_result(i: u64, case: &Value) -> Value {
-    json!({"i": i, "verdict": {"v": "fail", "class": "hang:native", "detail": format!("no answer within {} s of wall-clock", crate::worker::RUN_TIMEOUT_S)},
+    json!({"i": i, "verdict": {"v": "fail", "class": "hang:native", "detail": format!("no answer within {} s of wall-clock ({} s when the process was not computing)", crate::worker::RUN_TIMEOUT_S, crate::worker::RUN_BLOCKED_S)},
            "h": 0, "nt": true, "steps": 0, "digest": 0, "case": case, "log": []})
 }
 
